@@ -177,3 +177,9 @@ Definition standard_open_base_code : list dstmt :=
 (* driver/network/acquirepriv.go Driver.processAcquirePriv *)
 Definition process_acquire_priv_code : list dstmt :=
   [DCall "d.determineCurrentPriv(currentPrompt)"; DIf (DNot (DEq "err" "nil")) [DReturn """"", """", err"] []; DIf (DAtom "util.StringSliceContains(possiblePrivs, d.CurrentPriv)") [DAssign "current" "d.CurrentPriv"] [DIf (DAtom "util.StringSliceContains(possiblePrivs, target)") [DAssign "current" "d.PrivilegeLevels[target].Name"] [DAssign "current" "possiblePrivs[0]"]]; DIf (DEq "current" "target") [DAssign "d.CurrentPriv" "current"; DReturn "noAction, current, nil"] []; DAssign "mapTo" "d.buildPrivChangeMap(current, target, nil)"; DAssign "d.CurrentPriv" "unknownPriv"; DIf (DNot (DEq "d.PrivilegeLevels[mapTo[1]].PreviousPriv" "current")) [DReturn "deescalateAction, current, nil"] []; DReturn "escalateAction, d.PrivilegeLevels[mapTo[1]].Name, nil"].
+(* util/strings.go StringContainsAnySubStrs *)
+Definition string_contains_any_code : list dstmt :=
+  [DRange "ss" "l" [DIf (DAtom "strings.Contains(s, ss)") [DReturn "s"] []]; DReturn """"""].
+(* response/response.go Response.Record *)
+Definition response_record_code : list dstmt :=
+  [DAssign "r.EndTime" "time.Now()"; DAssign "r.ElapsedTime" "r.EndTime.Sub(r.StartTime).Seconds()"; DAssign "r.RawResult" "b"; DAssign "r.Result" "string(b)"; DAssign "s" "util.StringContainsAnySubStrs(r.Result, r.FailedWhenContains)"; DIf (DNot (DEq "s" """""")) [DAssign "r.Failed" "&OperationError{ Input: r.Input, Output: r.Result, ErrorString: s, }"] []].
